@@ -219,6 +219,27 @@ pub fn compare_minima(rd: &RefDict, dump: &LatticeDump) -> Result<i64, String> {
     Ok(m)
 }
 
+/// Exhaustive enumeration of all complete paths of the reference lattice (no dynamic programming):
+/// an oracle for the oracle, applied when the number of segmentations is small.
+pub fn brute_force_min(rd: &RefDict, refl: &RefLattice) -> Option<i64> {
+    fn go(rd: &RefDict, refl: &RefLattice, pos: usize, right: u16, acc: i64, best: &mut Option<i64>) {
+        if pos == refl.eos_from {
+            let t = acc + rd.conn.get(right, 0);
+            if best.map_or(true, |b| t < b) {
+                *best = Some(t);
+            }
+            // nodes may also start here only if eos_from < len (trailing spaces): nothing follows
+            return;
+        }
+        for n in refl.nodes.iter().filter(|n| n.start_node == pos) {
+            go(rd, refl, n.cand.end, n.cand.right, acc + rd.conn.get(right, n.cand.left) + i64::from(n.cand.cost), best);
+        }
+    }
+    let mut best = None;
+    go(rd, refl, 0, 0, 0, &mut best);
+    best
+}
+
 /// C02 black box: running sums along the reported path and optimality of the total.
 pub fn check_reported_path(rd: &RefDict, optimum: i64, toks: &[Tok]) -> Result<(i64, bool), String> {
     let mut acc = 0i64;
@@ -420,6 +441,18 @@ impl Sub for LatticeCheck {
                                 )));
                             }
                             ctx.label("candidates_agree_with_reference");
+                            // second, independent oracle for short sentences: enumerate every
+                            // complete segmentation of the reference candidate graph
+                            if refl.total_paths <= 3000 {
+                                let bf = brute_force_min(&rd, &refl);
+                                if bf != Some(refl.eos_best) {
+                                    return Err(ctxmsg(format!(
+                                        "harness self-check: brute-force minimum {bf:?} over all {} segmentations != reference Viterbi optimum {}",
+                                        refl.total_paths, refl.eos_best
+                                    )));
+                                }
+                                ctx.label("brute_force_cross_check");
+                            }
                         } else {
                             ctx.count("candidate_mismatch_left_to_C03", 1);
                         }
@@ -471,7 +504,7 @@ pub fn run_resources(which: Which, opts: &Opts, rep: &mut Report) {
         return;
     }
     let r = LatticeCheck { which, exclusive_space: false, resources: true };
-    run_sub(&r, opts, opts.tier.pick(1500, 30_000), rep);
+    run_sub(&r, opts, opts.tier.pick(4000, 60_000), rep);
 }
 
 pub fn run_c02(opts: &Opts) -> Report {
@@ -487,8 +520,8 @@ pub fn run_c02(opts: &Opts) -> Report {
     let b = LatticeCheck { which: Which::Optimality, exclusive_space: true, resources: false };
     crate::props::committed_replays(&a, opts, &mut rep);
     crate::props::committed_replays(&b, opts, &mut rep);
-    run_sub(&a, opts, opts.tier.pick(6000, 150_000), &mut rep);
-    run_sub(&b, opts, opts.tier.pick(2500, 60_000), &mut rep);
+    run_sub(&a, opts, opts.tier.pick(15_000, 300_000), &mut rep);
+    run_sub(&b, opts, opts.tier.pick(6000, 120_000), &mut rep);
     run_resources(Which::Optimality, opts, &mut rep);
     rep
 }
@@ -506,8 +539,8 @@ pub fn run_c03(opts: &Opts) -> Report {
     let b = LatticeCheck { which: Which::Candidates, exclusive_space: true, resources: false };
     crate::props::committed_replays(&a, opts, &mut rep);
     crate::props::committed_replays(&b, opts, &mut rep);
-    run_sub(&a, opts, opts.tier.pick(6000, 150_000), &mut rep);
-    run_sub(&b, opts, opts.tier.pick(2500, 60_000), &mut rep);
+    run_sub(&a, opts, opts.tier.pick(15_000, 300_000), &mut rep);
+    run_sub(&b, opts, opts.tier.pick(6000, 120_000), &mut rep);
     run_resources(Which::Candidates, opts, &mut rep);
     rep
 }
